@@ -146,11 +146,29 @@ func (OnceInOrder) Check(t *explore.Transition) ([]V, bool) {
 	if r == nil || t.Cur.Fault != nil {
 		return nil, false
 	}
+	// state rule: an accepted transaction advances the nonce of its sender by one, and nothing
+	// else ever changes a nonce (block twin: the block with and without this transaction)
+	var out []V
+	if r.T.Replay == 0 && r.T.FixedBytes == nil {
+		if r.Resp.Code == 0 && r.NonceAfter != r.NonceBefore+1 {
+			out = append(out, V{Signature: "accepted-nonce-not-advanced", Detail: fmt.Sprintf("tx %q accepted: the sender's nonce went from %d to %d", r.T.Name, r.NonceBefore, r.NonceAfter)})
+		}
+		if r.Resp.Code != 0 && r.NonceAfter != r.NonceBefore {
+			out = append(out, V{Signature: "rejected-changed-nonce", Detail: fmt.Sprintf("tx %q rejected (code %d): the sender's nonce went from %d to %d", r.T.Name, r.Resp.Code, r.NonceBefore, r.NonceAfter)})
+		}
+	}
+	if t.Parent != nil && t.Parent.Fault == nil && t.Parent.Final() != nil && t.Cur.Final() != nil {
+		own := "acct/" + r.Sender.String() + "/nonce"
+		for _, d := range twinDiff(t) {
+			if strings.HasPrefix(d.Key, "acct/") && strings.HasSuffix(d.Key, "/nonce") && (d.Key != own || r.Resp.Code != 0) {
+				out = append(out, V{Signature: "foreign-nonce-changed", Detail: fmt.Sprintf("tx %q (code %d) of sender %s changed %s", r.T.Name, r.Resp.Code, r.Sender.String(), d)})
+			}
+		}
+	}
 	if r.Resp.Code != 0 {
-		return nil, r.IsReplay || r.T.NonceOff != 0 || r.T.ChainID != 0
+		return out, r.IsReplay || r.T.NonceOff != 0 || r.T.ChainID != 0
 	}
 	inf := Info(r)
-	var out []V
 	if !inf.OK {
 		return []V{{Signature: "accepted-undecodable", Detail: r.T.Name}}, true
 	}
